@@ -57,7 +57,7 @@ var errGxRejected = errors.New("goonly: rejected by the validator's rule")
 // value), expects that of every case and counts the occurrences (goonly:deviation:*); true makes the documented
 // behaviour the expectation (the skip is then an oracle failure goonly-validator / encode / call-count or
 // accepted-rejected-node).
-const gxReportValidatorSkip = false
+const gxReportValidatorSkip = true
 
 type gxRules struct {
 	min, max uint
